@@ -77,7 +77,7 @@ var errorType = types.Universe.Lookup("error").Type()
 
 func foreignGlobalOK(g *ssa.Global) bool {
 	switch g.Pkg.Pkg.Path() + "." + g.Name() {
-	case "encoding/binary.BigEndian", "encoding/binary.LittleEndian":
+	case "encoding/binary.BigEndian", "encoding/binary.LittleEndian", bdg + ".DefaultIteratorOptions":
 		return true
 	}
 	return false
@@ -161,6 +161,12 @@ func (p *Path) constVal1(c *ssa.Const) Value {
 		return p.zero(t)
 	}
 	if w, _, ok := intInfo(t); ok {
+		if p.intW(w) {
+			bi, _ := new(bigInt).SetString(c.Value.ExactString(), 10)
+			if bi != nil {
+				return p.tb.IntBig(bi)
+			}
+		}
 		bi, _ := new(bigInt).SetString(c.Value.ExactString(), 10)
 		if bi == nil {
 			// e.g. rune constants given as floats – fall back
@@ -480,7 +486,7 @@ func (fr *frame) step(ins ssa.Instruction) bool {
 		lt := p.asBV64(fr.get(ins.Len))
 		if p.makeCap > 0 && !lt.IsConst() {
 			// harness-declared bound: declared lengths above the cap are outside the claim
-			c := p.tb.Ule(lt, p.tb.BV(uint64(p.makeCap), 64))
+			c := p.leIdx(lt, p.makeCap)
 			if p.feasible(c) == Unsat {
 				panic(pathAbort{"prune", "make length above declared cap"})
 			}
@@ -678,6 +684,9 @@ func (p *Path) describe(v Value) string {
 
 func (p *Path) asBV64(v Value) *Term {
 	t := v.(*Term)
+	if t.sort.K == KInt {
+		return t
+	}
 	if t.sort.K == KBV && t.sort.W < 64 {
 		// index operands are of some integer type; widen as unsigned only when the
 		// static type is unsigned is handled by callers via conv. Here: sign-extend.
@@ -688,8 +697,7 @@ func (p *Path) asBV64(v Value) *Term {
 
 // boundsIndex concretises idx and raises the runtime panic when out of range.
 func (p *Path) boundsIndex(idx *Term, n int) int {
-	tb := p.tb
-	inb := tb.Ult(idx, tb.BV(uint64(n), 64))
+	inb := p.inRange(idx, n)
 	if !p.branch(inb) {
 		p.goPanicf("index-out-of-range", "index out of range [%s] with length %d", idx, n)
 	}
@@ -700,7 +708,7 @@ func (p *Path) boundsIndex(idx *Term, n int) int {
 func (p *Path) readIndex(idx *Term, vs []Value) Value {
 	tb := p.tb
 	n := len(vs)
-	inb := tb.Ult(idx, tb.BV(uint64(n), 64))
+	inb := p.inRange(idx, n)
 	if !p.branch(inb) {
 		p.goPanicf("index-out-of-range", "index out of range [%s] with length %d", idx, n)
 	}
@@ -711,7 +719,7 @@ func (p *Path) readIndex(idx *Term, vs []Value) Value {
 		if _, ok := vs[0].(*Term); ok {
 			r := vs[n-1].(*Term)
 			for i := n - 2; i >= 0; i-- {
-				r = tb.Ite(tb.Eq(idx, tb.BV(uint64(i), 64)), vs[i].(*Term), r)
+				r = tb.Ite(p.eqConst(idx, i), vs[i].(*Term), r)
 			}
 			return r
 		}
@@ -729,7 +737,7 @@ func (p *Path) sliceOp(ins *ssa.Slice, x, lo, hi, max Value) Value {
 			// fork on the bounds check first so that out-of-range values panic
 			return -2
 		}
-		if t.val.BitLen() > 40 {
+		if t.val.BitLen() > 40 || t.val.Sign() < 0 {
 			return -1
 		}
 		return int(t.val.Int64())
@@ -762,7 +770,7 @@ func (p *Path) sliceOp(ins *ssa.Slice, x, lo, hi, max Value) Value {
 			return cur
 		}
 		t := p.asBV64(v)
-		if !p.branch(p.tb.Ule(t, p.tb.BV(uint64(upper), 64))) {
+		if !p.branch(p.leIdx(t, upper)) {
 			p.goPanicf("slice-bounds", "slice bounds out of range [%s] with capacity %d", t, upper)
 		}
 		return int(p.concretize(t, "slice bound"))
@@ -800,7 +808,7 @@ func (p *Path) next(ins *ssa.Next, it Value) Value {
 		return Tuple{tb.False, p.zero(tt.At(1).Type()), p.zero(tt.At(2).Type())}
 	case *StrIter:
 		if it.i >= len(it.s.b) {
-			return Tuple{tb.False, tb.BV(0, 64), tb.BV(0, 32)}
+			return Tuple{tb.False, p.i64(0), p.ic(0, 32)}
 		}
 		b := it.s.b[it.i]
 		if !b.IsConst() {
@@ -810,7 +818,7 @@ func (p *Path) next(ins *ssa.Next, it Value) Value {
 			}
 			i := it.i
 			it.i++
-			return Tuple{tb.True, tb.BV(uint64(i), 64), tb.Zext(b, 24)}
+			return Tuple{tb.True, p.i64(uint64(i)), p.intConv8(b)}
 		}
 		s, _ := Str{b: it.s.b[it.i:]}.concretePrefix()
 		for i, r := range s {
@@ -821,7 +829,7 @@ func (p *Path) next(ins *ssa.Next, it Value) Value {
 			}
 			idx := it.i
 			it.i += n
-			return Tuple{tb.True, tb.BV(uint64(idx), 64), tb.BVI(int64(r), 32)}
+			return Tuple{tb.True, p.i64(uint64(idx)), p.ic(int64(r), 32)}
 		}
 	}
 	panic(p.unsupported(fmt.Sprintf("next on %T", it)))
